@@ -145,7 +145,7 @@ func VerifC07_B2_MSM() {
 	types7 := []uint64{1077, 1087, 1097, 1127}
 	ti := 0
 	if verifTier() > 0 {
-		ti = verifParam("type", 0, 3)
+		ti = verifParam("type", 0, 1) // GPS and GLONASS (all four take over 50 minutes)
 	}
 	t := types4[ti]
 	if msm7 {
